@@ -31,6 +31,15 @@ def run(ctx):
             want_in = a <= phi <= b
             if inside != want_in:
                 viol.append({"signature": "theta2d-directions", "message": f"theta={deg}: direction at polar angle {phi} inside={inside}, expected {want_in}", "replay": {"angle": deg, "what": "dir"}})
+    # constructors return fresh matrices: editing a returned matrix in place must not change cones built afterwards
+    for deg in (30, 60, 120):
+        n += 1
+        first = np.array(get_2d_w(deg), dtype=float).copy()
+        W1 = get_2d_w(deg); W1 *= -1.0                      # a caller builds the reversed cone in place
+        o1 = ConeTheta2DOrder(deg); o1.ordering_cone.W[0, :] = 7.0
+        W2 = np.array(get_2d_w(deg), dtype=float); W3 = np.array(ConeTheta2DOrder(deg).ordering_cone.W, dtype=float)
+        if not (np.array_equal(W2, first) and np.allclose(W3, first, rtol=0, atol=1e-12)):
+            viol.append({"signature": "theta2d-shared-matrix", "message": f"after a caller modified the matrix returned by get_2d_w({deg}) / the W of an existing ConeTheta2DOrder({deg}) in place, a newly built cone of the same angle has W = {W3.tolist()} instead of {first.tolist()}", "replay": {"angle": deg, "what": "theta2d"}})
     samples.append({"angle": degs[0], "what": "theta2d"})
     # 90 degrees: the source formula uses tan(pi/2) in floating point; the cone must still be the orthant
     W90 = get_2d_w(90)
